@@ -288,8 +288,19 @@ def run_check(pid, tier, seed, only=None):
         results = [_worker(args[0])]
     else:
         mp = multiprocessing.get_context("fork")
-        with mp.Pool(nshards) as pool:
-            results = pool.map(_worker, args, chunksize=1)
+        # Safety net only (budgets are case counts): a shard that does not come back -- e.g. because a changed
+        # simulator never converges -- makes the run inconclusive (exit 2), never a violation.
+        limit = int(os.environ.get("VERIF_TIMEOUT", 0)) or (1500 if tier == "quick" else 6 * 3600)
+        pool = mp.Pool(nshards)
+        try:
+            results = pool.map_async(_worker, args, chunksize=1).get(timeout=limit)
+        except multiprocessing.TimeoutError:
+            pool.terminate()
+            print(f"HARNESS-ERROR property={pid} inconclusive: a shard exceeded the safety timeout of {limit}s")
+            return 2
+        finally:
+            pool.terminate()
+            pool.join()
 
     bad = [r for r in results if not r["ok"]]
     if bad:
